@@ -16,7 +16,7 @@ use shared::triple::Triple;
 pub const DEF: PropDef = PropDef {
     id: "C17",
     level: "exploration",
-    rule: "cases = (request text, database state, entry point): request texts are the C16 seed corpus (SELECT forms, the six update forms, legacy INSERT/DELETE aliases, rejected requests, RULE/REGISTER/RETRIEVE/ML.PREDICT extension requests), every single mutation of every seed (delete / insert / substitute 14 special characters incl. multi-byte / truncate, at every offset) and every token string of <=2 (thorough <=3) tokens over the 30-token alphabet; states: empty, default-graph only, named graphs + an empty named graph, quoted triples (quick: mutations against 2 of the 4 states); entry points execute_sparql_query, execute_sparql_update, SparqlDatabase::execute_update, SparqlDatabase::handle_update and (SELECT texts only) the legacy execute_query_rayon_parallel2_volcano. Oracle: no entry point panics; execute_sparql_query leaves quads + catalog identical for every text and returns Err for every text the parser classifies as an Update; a text the parser classifies as SELECT leaves the dataset unchanged through every entry point and is refused by the update entry points; an update entry point that returns Err / 'Update Failed' leaves the dataset unchanged. Non-trivial = texts accepted by the request parser; distinct by (text, state).",
+    rule: "cases = (request text, database state, entry point): request texts are the C16 seed corpus (SELECT forms, the six update forms, legacy INSERT/DELETE aliases, rejected requests, RULE/REGISTER/RETRIEVE/ML.PREDICT extension requests), every single mutation of every seed (delete / insert / substitute 14 special characters incl. multi-byte / truncate, at every offset) and every token string of <=2 (thorough <=3) tokens over the 30-token alphabet; states: empty, default-graph only, named graphs + an empty named graph, quoted triples (quick: each mutation against one of two states, alternating; thorough: all four); entry points execute_sparql_query, execute_sparql_update, SparqlDatabase::execute_update, SparqlDatabase::handle_update and (SELECT texts only) the legacy execute_query_rayon_parallel2_volcano. Oracle: no entry point panics; execute_sparql_query leaves quads + catalog identical for every text and returns Err for every text the parser classifies as an Update; a text the parser classifies as SELECT leaves the dataset unchanged through every entry point and is refused by the update entry points; an update entry point that returns Err / 'Update Failed' leaves the dataset unchanged. Non-trivial = texts accepted by the request parser; distinct by (text, state).",
     assumptions: &[
         "classification of a text as SELECT / Update / malformed is taken from kolibrie::parser::parse_combined_query (whose totality and faithfulness are C16's subject)",
         "each case runs on a fresh database; crash isolation by worker subprocess (a worker killed by a signal is a violation)",
@@ -199,8 +199,12 @@ fn run(ctx: &Ctx) -> ShardOut {
         let mut batch = Vec::new();
         mutations(seed, &mut |m| batch.push(m));
         for m in batch {
-            for &st in &mut_states {
+            for (k, &st) in mut_states.iter().enumerate() {
                 idx += 1;
+                // quick: each mutation meets one of the two states (alternating), thorough: all four
+                if !ctx.thorough() && (idx / 2 + k as u64) % 2 == 1 {
+                    continue;
+                }
                 if !ctx.mine(idx) {
                     continue;
                 }
